@@ -234,6 +234,14 @@ def truncateAndIncrementUtf8 (data : List Nat) (length : Nat) : Option (List Nat
 /-- `str::from_utf8(data).is_ok()` -/
 def validUtf8B (data : List Nat) : Bool := (decodeChars data).isSome
 
+/-- `can_truncate_value()`: `physical` = 1 for BYTE_ARRAY, 2 for FIXED_LEN_BYTE_ARRAY, anything else
+for the other physical types.  FIXED_LEN_BYTE_ARRAY is truncatable unless it is a Decimal or
+Float16, BYTE_ARRAY unless it is a Decimal (their order is not the unsigned byte order). -/
+def canTruncateValue (physical : Nat) (isDecimal isFloat16 : Bool) : Bool :=
+  if physical = 2 then !(isDecimal || isFloat16)
+  else if physical = 1 then !isDecimal
+  else false
+
 /-- `truncate_min_value(truncation_length, data)`; `utf8` = `self.is_utf8()` -/
 def truncateMinValue (utf8 : Bool) (tl : Option Nat) (data : List Nat) : List Nat × Bool :=
   match tl.filter (fun l => decide (data.length > l)) with
